@@ -35,12 +35,27 @@ func main() {
 	}
 	if *dump != "" {
 		type entry struct {
-			Name  string   `json:"name"`
-			Model []string `json:"model"`
+			Name     string   `json:"name"`
+			Model    []string `json:"model"`
+			Kind     string   `json:"kind,omitempty"`
+			Possible []string `json:"possible,omitempty"`
 		}
 		var out []entry
 		for name, m := range cfg.Models {
-			out = append(out, entry{Name: name, Model: m.Model})
+			e := entry{Name: name, Model: m.Model}
+			if cfg.Schema != nil {
+				if def := cfg.Schema.Types[name]; def != nil {
+					e.Kind = string(def.Kind)
+					if def.IsAbstractType() {
+						for _, p := range cfg.Schema.GetPossibleTypes(def) {
+							if p.Kind == "OBJECT" {
+								e.Possible = append(e.Possible, p.Name)
+							}
+						}
+					}
+				}
+			}
+			out = append(out, e)
 		}
 		sort.Slice(out, func(i, j int) bool { return out[i].Name < out[j].Name })
 		b, _ := json.MarshalIndent(out, "", " ")
